@@ -317,7 +317,10 @@ func init() {
 			for k := 0; k < n; k++ {
 				st := g.addrStep(dir, uniq, k)
 				st.viaListen = g.Chance(2, 5)
-				st.twice = !st.viaListen && g.Chance(1, 4)
+				// (only filesystem sockets: there the second bind replaces the first one's path; for tcp and
+				//  abstract names the first listener still owns the endpoint and the second bind may
+				//  legitimately fail with "address in use")
+				st.twice = !st.viaListen && st.path != "" && g.Chance(1, 3)
 				steps = append(steps, st)
 			}
 			// whatever happened before, the service must still be able to bind
